@@ -224,8 +224,15 @@ func (ma *mountAnalysis) publishTopic(p ssa.Value, at ssa.Instruction, depth int
 	obj := core.Strip(p)
 	// a captured object: judge it where the closure is created, in the function that defines the object
 	if at != nil {
-		if oi, ok := obj.(ssa.Instruction); ok && oi.Parent() != at.Parent() {
-			for g := at.Parent(); g != nil && g != oi.Parent(); g = g.Parent() {
+		var home *ssa.Function
+		switch oi := obj.(type) {
+		case *ssa.Parameter:
+			home = oi.Parent() // a parameter captured by a closure of its function
+		case ssa.Instruction:
+			home = oi.Parent()
+		}
+		if home != nil && home != at.Parent() {
+			for g := at.Parent(); g != nil && g != home; g = g.Parent() {
 				sites := ma.c.P.ClosureSites(g)
 				if len(sites) != 1 {
 					break
